@@ -127,7 +127,9 @@ int curLabel(int t)
 [[noreturn]] void reportRace(Range *r, uintptr_t a, const char *kind, int t, int other, int otherLabel, bool otherWrite, void *pc)
 {
   char sig[400], det[600];
-  snprintf(sig, sizeof sig, "race:%s:%s[%s]~%s[%s]", r->name, kind, mcint_thread_label(t), otherWrite ? "write" : "read", labels[otherLabel]);
+  // signature: watched range + access kinds (thread labels go into the detail text only, so that one defect
+  // does not fan out into one signature per scenario)
+  snprintf(sig, sizeof sig, "race:%s:%s~%s", r->name, kind, otherWrite ? "write" : "read");
   snprintf(det, sizeof det,
            "data race on %s+%zu: %s by T%d (%s, pc=%p) is not ordered by happens-before after the earlier %s by T%d (%s)", r->name,
            size_t(a - r->lo), kind, t, mcint_thread_label(t), pc, otherWrite ? "write" : "read", other, labels[otherLabel]);
